@@ -458,7 +458,14 @@ def case_mapping(case):
             cfg["prefix"] = RString(list(pf))
         lg = bharness.make_lang(I, lang, cfg)
         # two generic parameters, declared in an order that is not sorted (a membership test must not rely on sortedness)
-        gens = [RString(list(nm)), "Aa"] if generic_named else ["T", "A"]
+        # (round n) when the name is a user type, the first parameter is a symbolic 4-letter word that may *contain* the
+        # type's name (`TItem` next to `Item`): only equality with a parameter makes a name a parameter
+        gp = [z3.BitVec("g%d" % i, 32) for i in range(4)]
+        I.assume(z3.And(z3.UGE(gp[0], 65), z3.ULE(gp[0], 90)))
+        for c in gp[1:]:
+            I.assume(z3.Or(z3.And(z3.UGE(c, 65), z3.ULE(c, 90)), z3.And(z3.UGE(c, 97), z3.ULE(c, 122))))
+        I.assume(z3.Not(z3.And([c == ord(x) for c, x in zip(gp, "Wrap")])))   # a parameter called `Wrap` would shadow the container of the harness
+        gens = [RString(list(nm)), "Aa"] if generic_named else [RString(gp), "A"]
         t = ir.simple(RString(list(nm)))
         if wrap == "vec":
             t = ir.vec(t)
@@ -516,7 +523,8 @@ def case_mapping(case):
         if m is not None:
             ev = lambda cs: "".join(chr(m.eval(c, model_completion=True).as_long()) for c in cs)
             got = "".join(chr(c) if isinstance(c, int) else chr(m.eval(c, model_completion=True).as_long()) for c in text)
-            res["violations"].append({"kind": "mapping", "name": ev(nm), "key": ev(ky), "got": got, "prefix": ev(pf) if has_prefix else ""})
+            res["violations"].append({"kind": "mapping", "name": ev(nm), "key": ev(ky), "got": got, "prefix": ev(pf) if has_prefix else "",
+                                      "param": None if generic_named else ev([z3.BitVec("g%d" % i, 32) for i in range(4)])})
     return finish_case(I, res)
 
 
@@ -773,7 +781,7 @@ def native_b(nat, gname, case, v):
     inner = name
     ty = {"plain": "%s", "vec": "Vec<%s>", "option": "Option<%s>", "map_value": "HashMap<String, %s>", "generic_arg": "Wrap<%s>", "vec_option": "Vec<Option<%s>>", "map_key": "HashMap<%s, String>", "vec_map_key": "Vec<HashMap<%s, String>>", "slice": "&[%s]",
           "generic_second_arg": "Wrap<String, %s>"}[wrap] % inner
-    g = "<%s, Aa>" % name if generic else "<T, A>"
+    g = "<%s, Aa>" % name if generic else "<%s, A>" % (v.get("param") or "T")
     src = "#[typeshare]\npub type A%s = Vec<%s>;\n" % (g, ty)
     cfg["type_mappings"] = {key: "Mapped"}
     if prefix:
